@@ -1048,15 +1048,16 @@ def funcToEntries (m : Mode) (v : Val) : Outcome Val :=
     if d.mType == "object" then
       match d.mLength with
       | .ok lv =>
-        match toGoInt lv with
-        | none => .err (.unmodelled "invalid int length")
-        | some l =>
+        -- `l, ok := toInt(lv)`: JQValueLength of an object-typed decode value is a Go `len()`
+        match lv with
+        | .int l =>
           match d.mEach with
           | .ok ps =>
             if ps.length > l then .panic "index out of range"
             else if ps.any (fun p => match p.1 with | .str _ => false | _ => true) then .err (.funcType "to_entries")
             else .ok (.arr (ps.map (fun p => entry p.1 p.2) ++ List.replicate (l.toNat - ps.length) .null))
           | _ => .err (.funcType "to_entries")
+        | _ => .err (.unmodelled "invalid int length")
       | r => r
     else plain (Val.shallowM m (.dv d))
   | .garr xs => plain (.arr (Val.ofJVs xs))
